@@ -691,3 +691,9 @@ Proof.
 Qed.
 
 End Inv.
+
+Lemma forallb_filter_id {A} (f : A -> bool) l : forallb f l = true -> filter f l = l.
+Proof.
+  induction l as [|x l IH]; simpl; [reflexivity|]. intro H. apply andb_true_iff in H. destruct H as [Hx Hl].
+  rewrite Hx. now rewrite IH.
+Qed.
